@@ -308,9 +308,15 @@ class Layer(BaseObject):
             if dataOnDisk is None:
                 # the glyph was never loaded (or never written): record
                 # the state of the file that is being scheduled for deletion
-                dataOnDiskTimeStamp = self._glyphSet.getGLIFModificationTime(name)
-                if dataOnDiskTimeStamp is not None:
-                    dataOnDisk = self._glyphSet.getGLIF(name)
+                try:
+                    dataOnDiskTimeStamp = self._glyphSet.getGLIFModificationTime(name)
+                    if dataOnDiskTimeStamp is not None:
+                        dataOnDisk = self._glyphSet.getGLIF(name)
+                except Exception:
+                    # the file cannot be read (any more): there is no state to record,
+                    # deleting the glyph from the layer must work all the same
+                    dataOnDiskTimeStamp = None
+                    dataOnDisk = None
             self._scheduledForDeletion[name] = dict(dataOnDiskTimeStamp=dataOnDiskTimeStamp, dataOnDisk=dataOnDisk)
 
     def __len__(self):
